@@ -18,7 +18,7 @@ Flows == {"authorize", "authorizeHint", "authorizeUnregistered", "callbackCode",
           "deviceAuthorize", "pollApproved", "pollPending", "userinfoOpaque", "userinfoJWT", "introspectOpaque", "introspectJWT",
           "revokeOpaque", "revokeJWT", "revokeRefresh", "endSession", "endSessionNoHint"}
 MaxK == IF Tier = "quick" THEN 12 ELSE 16
-Kinds == {"error", "deadline", "oidc", "dupcode"}
+Kinds == {"error", "deadline", "oidc", "dupcode", "typednil"}   \* typednil: look-ups answer `return obj, err` with a nil pointer inside the interface
 
 Groups == Flows
 CasesOf(f) == {[flow |-> f, router |-> r, k |-> k, fkind |-> fk] : r \in {"P", "L"}, k \in 1..MaxK, fk \in Kinds}
